@@ -254,6 +254,14 @@ def _chain_cases(seed, tier):
         except Exception:
             return None
     yield {"converters": [], "case_sensitive": True}
+    for s0, d0 in worlds.CURATED:
+        if d0 == ":":
+            for flag in (True, False):
+                try:
+                    yield {"converters": [worlds.make_converter(s0, d0)], "case_sensitive": flag}
+                    yield {"converters": [worlds.make_converter(s0, d0), worlds.make_converter([("zz", "zz/", ["ZZ"], [], None)], ":")], "case_sensitive": flag}
+                except Exception:
+                    pass
     n = 120 if tier == "quick" else 1200
     for _ in range(n):
         k = rng.choice([1, 2, 2, 3])
@@ -627,7 +635,7 @@ def _rtfc(seed, tier):
         yield case
 
 
-STRS = ["", "a", "GO", "a:b", ":", "é", "x y", "1", "a\tb", "\"q\"", "a\nb", "a\rb", "::"]
+STRS = ["", "a", "GO", "a:b", ":", "é", "x y", "1", "a\tb", "\"q\"", "a\nb", "a\rb", "::", " a", "a ", "a\u00a0", "\u3000b"]
 
 
 @domain("C15.print_parse")
@@ -675,7 +683,8 @@ def _pd(seed, tier):
         for _ in range(6):
             cells = [rng.choice(pool) for _ in range(rng.choice([0, 1, 3]))]
             yield {"conv": c, "cells": cells, "op": rng.choice(["compress", "expand", "standardize_prefix", "standardize_curie", "standardize_uri"]),
-                   "strict": rng.random() < 0.3, "passthrough": rng.random() < 0.5, "ambiguous": rng.random() < 0.5, "target": rng.random() < 0.5}
+                   "strict": rng.random() < 0.3, "passthrough": rng.random() < 0.5, "ambiguous": rng.random() < 0.5, "target": rng.random() < 0.5,
+                   "labels": rng.choice([("x", "y", "other"), (1, 0, 2), (0, 1, 2), ("x", "", "other")])}
 
 
 @domain("C16.file_elementwise_atomic")
@@ -751,14 +760,16 @@ def _ms_expand(seed, tier):
     from curies.mapping_service.api import MappingServiceGraph
     for c in _ms_convs(seed, tier):
         g = MappingServiceGraph(converter=c)
-        for u in worlds.uri_pool(c):
+        extra = [r.uri_prefix + t for r in c.records for t in ("a\u00a0b", "a\u2003", "\u3000", "é", "a b", "a<b", "a\\b", "a^b")]
+        for u in worlds.uri_pool(c) + extra:
             yield {"self": g, "uri_in": u}
 
 
 @domain("C18.triples_dispatch")
 def _ms_triples(seed, tier):
     for c in _ms_convs(seed, tier):
-        for u in worlds.uri_pool(c)[:25]:
+        extra = [r.uri_prefix + t for r in c.records for t in ("a\u00a0b", "é", "a b")]
+        for u in worlds.uri_pool(c)[:25] + extra:
             for pred in ("http://www.w3.org/2002/07/owl#sameAs", "http://www.w3.org/2004/02/skos/core#exactMatch", "http://x/p"):
                 for side in ("s", "o", "both", "none"):
                     for predicates in ([], ["http://www.w3.org/2004/02/skos/core#exactMatch", "http://www.w3.org/2002/07/owl#sameAs"]):
